@@ -258,6 +258,10 @@ func checkC07(c *Ctx, r *Report) {
 	r.Undecidedcl = []string{"decoded values equal logged values for all inputs (relies on strconv/encoding/json contracts)", "user-supplied ArrayValue implementations"}
 	r.Assumptions = []string{"strconv.FormatInt/FormatUint/FormatFloat(-1,64) round-trip", "encoding/json.Marshal emits valid compact JSON without raw control characters"}
 	ro := c.roles(r)
+	{
+		jok, tok := c.checkLayoutSemantics(r, ro, "C07.layout-values")
+		layoutDecisions(r, jok, tok)
+	}
 	r.Floor("encoder implementations", len(ro.Encoders), 2)
 	jt, lastF, toks := c.jsonEncoderType(ro)
 	if jt == nil {
@@ -1492,6 +1496,10 @@ func checkC08(c *Ctx, r *Report) {
 	r.Undecidedcl = []string{"byte-for-byte equality of text tokens with JSON tokens beyond formatter/escaper agreement"}
 	r.Assumptions = []string{"strconv and encoding/json contracts", "integer arithmetic on lengths does not overflow"}
 	ro := c.roles(r)
+	{
+		jok, tok := c.checkLayoutSemantics(r, ro, "C08.layout-values")
+		layoutDecisions(r, jok, tok)
+	}
 	jt, lastF, toks := c.jsonEncoderType(ro)
 	var tt *types.Named
 	for _, e := range ro.Encoders {
